@@ -104,6 +104,8 @@ class RegressionAdjustment(object):
         self._parameter_names = parameter_names or sample.parameter_names
         self._get_finite()
 
+        # Fit anew: models of an earlier fit of this object must not be used for this sample
+        self.regression_models = []
         for pair in self._pairs():
             self.regression_models.append(self._fit1(*pair))
 
